@@ -12,6 +12,7 @@ import (
 
 	"github.com/smart-core-os/sc-api/go/traits"
 	"github.com/smart-core-os/sc-api/go/types"
+	"github.com/smart-core-os/sc-golang/pkg/masks"
 	"github.com/smart-core-os/sc-golang/pkg/resource"
 )
 
@@ -110,7 +111,8 @@ func (m *ModelServer) ListPublications(_ context.Context, request *traits.ListPu
 	lastKey := pageToken.GetLastResourceName() // the key() of the last item we sent
 	pageSize := capPageSize(int(request.GetPageSize()))
 
-	sortedItems := m.model.ListPublications(resource.WithReadMask(request.ReadMask))
+	// page over the unfiltered listing: the read mask may leave out the field the page token is made of
+	sortedItems := m.model.ListPublications()
 	nextIndex := 0
 	if lastKey != "" {
 		nextIndex = sort.Search(len(sortedItems), func(i int) bool {
@@ -137,6 +139,13 @@ func (m *ModelServer) ListPublications(_ context.Context, request *traits.ListPu
 		return nil, err
 	}
 	result.Publications = sortedItems[nextIndex:upperBound]
+
+	// apply read mask
+	mask := masks.NewResponseFilter(masks.WithFieldMask(request.ReadMask))
+	for i, item := range result.Publications {
+		result.Publications[i] = mask.FilterClone(item).(*traits.Publication)
+	}
+
 	return result, nil
 }
 
